@@ -1922,6 +1922,12 @@ def gen_bundle(st, case):
         bundle.append(gen_driver(st, case, "C04", ["pool"]))
     if rs.random() < 0.5:
         bundle.append({"kind": "run", "natural_hash": True})
+    if not case.get("graph_drop"):
+        # the same program entered through the other documented forms of the 'components' argument
+        if case["targets"] is None and rs.random() < 0.35:
+            bundle.append({"kind": "run", "entry": "group"})           # the default group's own table (dr.run() with no argument)
+        if rs.random() < 0.2:
+            bundle.append({"kind": rs.choice(["run", "incr", "all"]), "entry": "list"})
     return bundle
 
 
